@@ -45,7 +45,8 @@ def scenarios(prop, quick, seed):
                 "invall": [0, 0, 1, 0, 0, 2][j % 6], "reads": (j // 3) % 2, "stale": 1 if (j // 4) % 3 == 0 else 0,
                 "smallbuf": 1 if (j // 5) % (2 if prop == "C04" else 4) == 1 else 0}
         if prop == "C16":
-            sc = dict(base, size=["count", "weight", "count"][j % 3], max=2 + j % 4, wt=[1, 0, 2, 1, 3], smallbuf=1, stale=0, invall=0)
+            # (with an InvalidateAll in half of them: it replays the buffered events itself before it discards the entries)
+            sc = dict(base, size=["count", "weight", "count"][j % 3], max=2 + j % 4, wt=[1, 0, 2, 1, 3], smallbuf=1, stale=0, invall=[0, 1, 0, 2][j % 4])
         elif prop == "C17":
             sc = dict(base, size=["count", "none", "weight"][j % 3], max=3 + j % 4, wt=[1, 0, 2, 1, 3], smallbuf=0, stale=0, reads=1, expiry=1,
                       invall=2 + j % 3, policy="free", writers=3 + j % 2, ops=12 + j % 6, keys=2 + j % 3)
